@@ -3,7 +3,7 @@ from __future__ import annotations
 
 import ast
 
-from ..astutil import attr_chain, call_method, enum_member, short, src, ancestors
+from ..astutil import clone, attr_chain, call_method, enum_member, short, src, ancestors
 from ..linear import Normaliser, Sym
 from ..model import walk_local, AnalysisError
 from ..report import Ctx
@@ -225,7 +225,7 @@ def _main_check(ctx: Ctx) -> None:
                 def visit_Name(self, n):
                     return ast.copy_location(ast.Name(id=ren.get(n.id, n.id), ctx=n.ctx), n)
             import copy as _c
-            return src(R().visit(_c.deepcopy(e)))
+            return src(R().visit(clone(e)))
         dtxt = neutral(d) if d is not None else None
         if d is not None and isinstance(d, ast.Name) and d.id in derived:
             dtxt = T.rename_sig(nz.norm(derived[d.id].value).canon())
